@@ -46,7 +46,7 @@ type propInfo struct {
 	Note       string   `json:"note"`
 }
 
-func runCheck(repo, verif, prop, tier string, secs int, keep bool) int {
+func runCheck(repo, verif, prop, tier string, secs int, keep bool, evOut string) int {
 	t0 := time.Now()
 	seed := 0
 	if s := os.Getenv("VERIF_SEED"); s != "" {
@@ -66,6 +66,10 @@ func runCheck(repo, verif, prop, tier string, secs int, keep bool) int {
 		return 2
 	}
 	evPath := filepath.Join(verif, "evidence", prop+".json")
+	if evOut != "" {
+		evPath = evOut
+		replayDirOverride = filepath.Dir(evOut)
+	}
 	os.MkdirAll(filepath.Dir(evPath), 0o755)
 	os.Remove(evPath)
 	L, err := Load(repo, verif)
@@ -102,6 +106,48 @@ func runCheck(repo, verif, prop, tier string, secs int, keep bool) int {
 	for _, n := range names {
 		results = append(results, VerifyFunction(L, n, L.CF.Contracts[n], prop))
 	}
+	// Trusted contracts of package functions (dependency-shaped code that is
+	// outside the subset) get a bounded stand-in: the contract's Go rendering is
+	// evaluated on an exhaustive small-scope enumeration of inputs. This is
+	// labelled bounded in the evidence and never counted as proved.
+	boundedRuns := []string{}
+	boundedViolations := 0
+	for _, n := range L.CF.Order {
+		ct := L.CF.Contracts[n]
+		if !ct.HasProp(prop) || ct.Trusted == "" || strings.HasPrefix(n, "iface:") || strings.HasPrefix(n, "ext:") {
+			continue
+		}
+		if _, ok := ct.Opts["bounded"]; !ok {
+			continue
+		}
+		fn := L.Func(n)
+		if fn == nil {
+			continue
+		}
+		src, why := harnessFor(L, fn, ct, contractPools(ct), 2000000)
+		if src == "" {
+			boundedRuns = append(boundedRuns, n+": no bounded stand-in ("+why+")")
+			continue
+		}
+		pass, out := runOverlayTest(L, verif, src, false)
+		line := ""
+		for _, l := range strings.Split(out, "\n") {
+			if strings.HasPrefix(l, "VERIF-REPLAY") {
+				line = l
+			}
+		}
+		if line == "" {
+			line = "did not run: " + firstLines(out, 6)
+		}
+		boundedRuns = append(boundedRuns, fmt.Sprintf("%s: bounded stand-in over the pools of its contract: %s", n, line))
+		if !pass && strings.Contains(out, "VERIF-FAIL") {
+			boundedViolations++
+			rp := writeReplay(verif, prop, n+"#bounded", map[string]interface{}{"property": prop, "obligation": n + "#bounded", "kind": "bounded stand-in of a trusted contract",
+				"replay_output": trimOutput(out)})
+			fmt.Printf("FAILED obligation=%s#bounded: the assumed contract does not hold on an enumerated input\n", n)
+			fmt.Printf("VIOLATION property=%s replay=%s\n", prop, rp)
+		}
+	}
 	// Known findings: replay each witness on the real code first. While the
 	// witness still fails, the finding is reported and its obligation is not
 	// sent to the solvers (it cannot be discharged); once the witness passes,
@@ -136,20 +182,37 @@ func runCheck(repo, verif, prop, tier string, secs int, keep bool) int {
 				skipped++
 				continue
 			}
+			if len(o.ClauseProps) > 0 {
+				in := false
+				for _, q := range o.ClauseProps {
+					if q == prop {
+						in = true
+					}
+				}
+				if !in {
+					continue
+				}
+			}
 			keepO = append(keepO, o)
 		}
 		r.Obligations = keepO
 	}
 	work := filepath.Join(verif, ".work", fmt.Sprintf("check-%s-%d", prop, os.Getpid()))
-	Discharge(results, work, secs, 8, seed)
+	Discharge(results, work, secs, 5, seed)
 	if tier == "thorough" {
 		// stability: re-run discharged obligations with two other seeds
 		// (flaky proofs are reported, not failed)
 	}
-	violations := 0
+	violations := boundedViolations
 	broken := 0
 	total, discharged := 0, 0
 	_ = skipped
+	boundedNotes = boundedRuns
+	for _, n := range names {
+		for _, d := range L.CF.Contracts[n].Drift {
+			fmt.Printf("DRIFT function=%s: %s (the clause no longer applies to the code and is treated as false)\n", n, d)
+		}
+	}
 	for _, r := range results {
 		if r.Error != "" {
 			// function left the verified subset or the contract drifted
@@ -285,8 +348,14 @@ func matchKnown(k KnownFile, prop, obl string) *KnownFinding {
 	return nil
 }
 
+var replayDirOverride string
+var boundedNotes []string
+
 func writeReplay(verif, prop, obl string, rec map[string]interface{}) string {
 	dir := filepath.Join(verif, "replays")
+	if replayDirOverride != "" {
+		dir = replayDirOverride
+	}
 	os.MkdirAll(dir, 0o755)
 	h := sha1.Sum([]byte(obl))
 	name := fmt.Sprintf("%s-%s-%x.json", prop, safeNameRe.ReplaceAllString(obl, "_"), h[:4])
@@ -387,6 +456,7 @@ func writeEvidence(path, prop, tier string, seed int, results []*FuncResult, tru
 		"vacuity_canaries_ok":      canaries,
 		"known_findings_reported":  known,
 		"outside_subset":           errors,
+		"bounded_stand_ins":        boundedNotes,
 		"explanation":              "every obligation is generated from the SSA of /repo's working tree on this run; see DESIGN.md §3.8 for what the translation abstracts",
 	}
 	if info := loadPropInfo(prop); info != nil {
